@@ -558,7 +558,7 @@ def ev_gp(case):
 # Oracle (differential): after every prediction, and in an audit of all three calls at the end of every history, the result
 # equals that of a freshly constructed regressor with the same data and the current hyper-parameters; the caller's arrays
 # are byte-identical to what the caller wrote.
-HIST_ACTIONS = ["S0", "S1", "S2", "F0", "F1", "F2", "C", "P", "M"]
+HIST_ACTIONS = ["S0", "S1", "S2", "F0", "F1", "F2", "C", "P", "M", "W"]  # W: the caller re-uses (overwrites) the hyper-parameter array it handed over last, without telling the regressor
 HIST_RTOL = 1e-12
 HIST_CONFIGS = [
     # (kernel, mean, noise, n, d)
@@ -671,6 +671,7 @@ def ev_gphist(case):
             want["y_cov"] = S
         arrs["q"] = q
         cur, how, prev = 0, "constructor", None
+        last_arg, last_name = T, "theta"
         ok = True
 
         def observe(w, done, audit):
@@ -727,6 +728,13 @@ def ev_gphist(case):
                     return False
                 cnt["n"] += 1
                 cur = k
+                last_arg, last_name = arg, ("theta" if act[0] == "S" else f"theta-new-array#{t}")
+            elif act == "W":
+                # the fitted state belongs to the regressor: what the caller does to its own array afterwards must not matter
+                other = thetas[(cur + 1) % 3]
+                last_arg[:] = other
+                want[last_name] = other
+                how = how.split("+")[0] + "+then-overwritten-by-the-caller"
             else:
                 observe(act, done, False)
             unchanged(done)
